@@ -517,9 +517,21 @@ func (w *World) callWrites(c *ssa.CallCommon, ws *WriteSet, g *Gen, encl *ssa.Fu
 }
 
 // designatorVars maps an assigns designator to heap variable names (array granularity).
+func (w *World) designatorVarsPkg(d string, pkg *types.Package) (map[string]Sort, bool) {
+	savedPkg := designatorPkg
+	designatorPkg = pkg
+	defer func() { designatorPkg = savedPkg }()
+	return w.designatorVars(d, nil, nil)
+}
+
+var designatorPkg *types.Package
+
 func (w *World) designatorVars(d string, fn *ssa.Function, ct *Contract) (map[string]Sort, bool) {
 	out := map[string]Sort{}
 	d = strings.TrimSpace(d)
+	if strings.HasPrefix(d, "everything_but") {
+		return out, true
+	}
 	if d == "everything" {
 		return out, true
 	}
@@ -531,6 +543,9 @@ func (w *World) designatorVars(d string, fn *ssa.Function, ct *Contract) (map[st
 	var pkg *types.Package
 	if fn != nil && fn.Pkg != nil {
 		pkg = fn.Pkg.Pkg
+	}
+	if pkg == nil {
+		pkg = designatorPkg
 	}
 	// ghost: name(...) or name[*]
 	gname := d
@@ -810,6 +825,8 @@ func (g *Gen) designatorCells(d string, env *Env) ([]cellTarget, error) {
 
 func (g *Gen) calleeFnFor(env *Env) *ssa.Function { return nil }
 
+var wholeRow bool
+
 func (g *Gen) lvalueCells(e Expr, env *Env) ([]cellTarget, error) {
 	switch x := e.(type) {
 	case *ESel:
@@ -844,15 +861,25 @@ func (g *Gen) lvalueCells(e Expr, env *Env) ([]cellTarget, error) {
 		switch u := b.Ty.Underlying().(type) {
 		case *types.Map:
 			ks, vs := sortOf(u.Key()), sortOf(u.Elem())
+			addrs := []string{b.T}
+			if lit, isLit := x.I.(*EInt); !(isLit && lit.V == "0" && wholeRow) {
+				k, err := env.EvalVal(x.I)
+				if err != nil {
+					return nil, err
+				}
+				addrs = []string{b.T, k.T}
+			}
 			return []cellTarget{
-				{varName: mapDomVar(u), sort: ArrSort(SInt, ArrSort(ks, SBool)), addrs: []string{b.T}},
-				{varName: mapValVar(u), sort: ArrSort(SInt, ArrSort(ks, vs)), addrs: []string{b.T}},
+				{varName: mapDomVar(u), sort: ArrSort(SInt, ArrSort(ks, SBool)), addrs: addrs},
+				{varName: mapValVar(u), sort: ArrSort(SInt, ArrSort(ks, vs)), addrs: addrs},
 			}, nil
 		case *types.Slice:
 			return []cellTarget{{varName: elemVar(u.Elem()), sort: ArrSort(SInt, ArrSort(SInt, elemSort(u.Elem()))), addrs: []string{g.model.slBase(b.T)}}}, nil
 		}
 	case *ECall:
 		if (x.Fn == "elems" || x.Fn == "entries") && len(x.Args) == 1 {
+			wholeRow = true
+			defer func() { wholeRow = false }()
 			return g.lvalueCells(&EIndex{x.Args[0], &EInt{"0"}}, env)
 		}
 		if x.Fn == "deref" && len(x.Args) == 1 {
@@ -918,6 +945,27 @@ func elemSortOfArr(s Sort, depth int) Sort {
 // havocDesignators havocs exactly the designated cells.
 func (g *Gen) havocDesignators(h *Heap, ds []string, env *Env, guard string) (*Heap, error) {
 	var firstErr error
+	if len(ds) > 0 && strings.HasPrefix(strings.TrimSpace(ds[0]), "everything_but") {
+		var own []string
+		for _, d := range ds {
+			isSet := false
+			for _, c := range g.specs.Contracts {
+				_ = c
+			}
+			if !strings.Contains(d, "everything_but") && !strings.HasSuffix(strings.TrimSpace(d), "[*]") && !strings.HasPrefix(strings.TrimSpace(d), "heap(") {
+				isSet = true // targets of `sets` clauses are appended after the declared frame; they are modified, not kept
+			}
+			if !isSet {
+				own = append(own, d)
+			}
+		}
+		keep := g.keptVars(own, env.pkg)
+		g.vc.abstract("havoc of the modelled heap except " + strings.Join(keep, ", "))
+		h2 := h.HavocAllBut(keep)
+		g.vc.AssumeAt(guard, App(">=", g.model.allocNow(h2), g.model.allocNow(h)), "allocation counter is monotone")
+		g.assumeMonotone(h, h2, guard, nil)
+		return h2, nil
+	}
 	for _, d := range ds {
 		if strings.TrimSpace(d) == "everything" {
 			return g.havocAll(h, guard, "assigns everything"), firstErr
@@ -965,10 +1013,51 @@ func nestedStore(arr string, idx []string, v string) string {
 	return Sto(arr, idx[0], nestedStore(Sel(arr, idx[0]), idx[1:], v))
 }
 
+// keptVars: heap variables named after `everything_but`.
+func (g *Gen) keptVars(ds []string, pkg *types.Package) []string {
+	var keep []string
+	for i, d := range ds {
+		d = strings.TrimSpace(d)
+		if i == 0 {
+			d = strings.TrimSpace(strings.TrimPrefix(d, "everything_but"))
+		}
+		if d == "" {
+			continue
+		}
+		vars, all := g.w.designatorVarsPkg(d, pkg)
+		if all {
+			g.errorf("everything_but: cannot resolve %s", d)
+			continue
+		}
+		for n, s := range vars {
+			g.vc.noteHeapVar(n, s)
+			keep = append(keep, n)
+		}
+	}
+	sortStrings(keep)
+	return keep
+}
+
 // frameObligations: every heap variable the function may have changed is either designated or unchanged
 // on all cells that existed at entry.
 func (g *Gen) frameObligations(exit *Heap, guard string, pos string) {
 	env := g.envAt(g.entry, nil) // designators are evaluated in the pre-state
+	if as := g.contract.allAssigns(); len(as) > 0 && strings.HasPrefix(strings.TrimSpace(as[0]), "everything_but") {
+		alloc0 := g.model.allocNow(g.entry)
+		for _, n := range g.keptVars(g.contract.Assigns, g.fn.Pkg.Pkg) {
+			s := g.vc.heapVarSorts[n]
+			a, b := g.entry.Get(n, s), exit.Get(n, s)
+			if a == b {
+				continue
+			}
+			goal := Eq(a, b)
+			if strings.HasPrefix(string(s), "(Array Int ") {
+				goal = fmt.Sprintf("(forall ((fr Int)) (=> (< (root fr) %s) (= (select %s fr) (select %s fr))))", alloc0, b, a)
+			}
+			g.vc.Assert(fmt.Sprintf("%s#frame:%s", funcKey(g.fn), n), "frame", guard, goal, pos, "assigns everything_but: "+n+" is unchanged")
+		}
+		return
+	}
 	allowed := map[string][][]string{} // var -> list of allowed index paths (nil entry = whole var)
 	for _, d := range g.contract.allAssigns() {
 		if strings.TrimSpace(d) == "everything" {
